@@ -1,8 +1,10 @@
 """C19 — text forms of instances, solutions and result tables round-trip (DESIGN.md section 6)."""
 from __future__ import annotations
 
+import contextlib
 import itertools
 import re
+import signal
 import warnings
 
 from .common import Check, kv
@@ -11,9 +13,29 @@ THEOREMS = [
     "Text.compact_roundtrip", "Text.compact_roundtrip_ascii", "Text.compact_derived",
     "Text.fromCompactStr_valid", "Text.space_roundtrip", "Text.plan_roundtrip",
     "Text.planToStr_isSome", "Text.ordering_roundtrip", "Text.planFromStr_ok", "Text.ordFromStr_ok",
+    "Csv.csv_roundtrip", "Csv.csv_to_from", "Csv.csv_trim_pad", "Csv.csv_reader_layout",
 ]
 
 ERRS = (ValueError, IndexError, TypeError, KeyError, OverflowError)
+
+
+class Timeout(Exception):
+    """the real code did not return within the time limit (the constructor's lower bounds cost time proportional to
+    min(W, H) and to the number of squares of the items: a reader that yields other numbers than were written can
+    take practically forever)"""
+
+
+@contextlib.contextmanager
+def time_limit(seconds: float):
+    def handler(signum, frame):
+        raise Timeout()
+    old = signal.signal(signal.SIGALRM, handler)
+    signal.setitimer(signal.ITIMER_REAL, seconds)
+    try:
+        yield
+    finally:
+        signal.setitimer(signal.ITIMER_REAL, 0)
+        signal.signal(signal.SIGALRM, old)
 
 
 def cps(s: str) -> str:
@@ -111,12 +133,14 @@ def gen_instances(ck: Check):
             w, h = (a, b) if rng.random() < 0.5 else (b, a)
             rows.append([w, h, rep])
         yield "random", rng.choice(["r", "r1", "abc_9", "Zz"]), W, H, rows
-    # shipped instances
-    from moptipyapps.binpacking2d.instance import Instance
-    names = list(Instance.list_resources())
-    for nm in (names[::40] if quick else names[::4]):
-        inst = Instance.from_resource(nm)
-        yield "shipped", inst.name, inst.bin_width, inst.bin_height, [[int(v) for v in r] for r in inst]
+
+
+def shipped_lines(ck: Check):
+    """the raw compact strings of the shipped instances (`instances.txt`, what `from_resource` parses)"""
+    from .common import REPO
+    lines = [ln.strip() for ln in (REPO / "moptipyapps" / "binpacking2d" / "instances.txt").read_text().splitlines()]
+    lines = [ln for ln in lines if ln and not ln.startswith("#")]
+    return lines[::40] if ck.quick else lines[::3]
 
 
 def malformed_compact(ck: Check):
@@ -176,7 +200,8 @@ def stream_instances(ck: Check, ops, expect):
         ctx = {"name": name, "W": W, "H": H, "rows": rows if len(rows) <= 12 else f"<{len(rows)} rows>"}
         # C: the property on the implementation: from_compact_str(to_compact_str(I)) == I field by field
         try:
-            back = Instance.from_compact_str(s)
+            with time_limit(20):
+                back = Instance.from_compact_str(s)
             same = (back.name == inst.name and back.bin_width == inst.bin_width and back.bin_height == inst.bin_height
                     and back.shape == inst.shape and back.dtype == inst.dtype
                     and back.tolist() == inst.tolist() and inst.tolist() == [list(r) for r in rows])
@@ -196,16 +221,43 @@ def stream_instances(ck: Check, ops, expect):
                 ck.count("inst_space")
         except ERRS as e:
             ck.spec(False, "compact_fields", f"from_compact_str(to_compact_str(I)) raised {type(e).__name__}: {e}", ctx)
+        except Timeout:
+            ck.spec(False, "compact_fields", "from_compact_str(to_compact_str(I)) did not return within 20 s "
+                    "(it builds an instance with other numbers than were written)", ctx)
         expect.append(("inst", stream, line, f"s={cps(s)} back=1 " + inst_fields(inst, False), None))
+    # shipped instances: text -> object -> text
+    for ln in shipped_lines(ck):
+        ck.count("inst_shipped_lines")
+        ctx = {"line": ln[:200]}
+        try:
+            with time_limit(20):
+                inst = Instance.from_compact_str(ln)
+            ck.spec(inst.to_compact_str() == ln, "compact_text_roundtrip",
+                    "to_compact_str(from_compact_str(line)) differs from the shipped line", ctx)
+            iout = inst_fields(inst, True)
+        except ERRS as e:
+            ck.spec(False, "compact_text_roundtrip", f"from_compact_str rejects a shipped line: {type(e).__name__}: {e}", ctx)
+            iout = "ERR"
+        except Timeout:
+            ck.spec(False, "compact_text_roundtrip", "from_compact_str did not return within 20 s on a shipped line", ctx)
+            continue
+        line = f"txtIp {cps(ln)}"
+        ops.append(line)
+        ck.case(f"shipped {ln[:80]}")
+        expect.append(("parse", "shipped", line, iout, ln))
     for s in malformed_compact(ck):
         line = f"txtIp {cps(s)}"
         try:
-            inst = Instance.from_compact_str(s)
+            with time_limit(20):
+                inst = Instance.from_compact_str(s)
             iout = inst_fields(inst, True)
             ck.count("parse_accepted")
         except ERRS:
             iout = "ERR"
             ck.count("parse_rejected")
+        except Timeout:
+            iout = "TIMEOUT"
+            ck.count("parse_timeout")
         ops.append(line)
         ck.case(line, nontrivial=iout != "ERR")
         expect.append(("parse", "malformed", line, iout, s))
@@ -605,12 +657,12 @@ def rand_result(ck: Check, objs, bbkeys, het: bool):
                          rng.choice([1, 50, 10**12]), vals, bounds, bb)
 
 
-def gen_result_sets(ck: Check):
+def gen_result_sets(ck: Check, real):
     rng, quick = ck.rng, ck.quick
-    real = real_experiment_results(ck)
-    yield "real", real
-    for _ in range(3 if quick else 30):
-        yield "real_subset", rng.sample(real, rng.randint(1, len(real)))
+    if real:
+        yield "real", real
+        for _ in range(3 if quick else 30):
+            yield "real_subset", rng.sample(real, rng.randint(1, len(real)))
     for _ in range(40 if quick else 1200):
         k = rng.choice([1, 1, 2, 3, 5, 9])
         objs = sorted(rng.sample(OBJ_NAMES, rng.choice([1, 2, 2, 3, 7])))
@@ -619,17 +671,19 @@ def gen_result_sets(ck: Check):
         yield ("random_het" if het else "random"), [rand_result(ck, objs, bbk, het) for _ in range(k)]
 
 
-def mutate_table(ck: Check, hdr, rows, n_er):
-    """malformed / perturbed tables for the readers: (what, header, rows); only the columns of the packing classes are
-    damaged — the columns of the embedded moptipy record are read by moptipy's own (opaque) reader"""
+def mutate_table(ck: Check, hdr, rows, n_er, own=None):
+    """malformed / perturbed tables for the readers: (what, header, rows); only the columns of the packing classes
+    (`own`, default: all after the first `n_er`) are damaged — the columns of the embedded moptipy records are read by
+    moptipy's own (opaque) readers"""
     rng = ck.rng
     out = [("asis", hdr, rows)]
     n = len(hdr)
+    own = list(range(n_er, n)) if own is None else own
     for _ in range(6):
-        i = rng.randrange(n_er, n)
+        i = rng.choice(own)
         out.append((f"drop:{hdr[i]}", hdr[:i] + hdr[i + 1:], [r[:i] + r[i + 1:] for r in rows]))
         out.append((f"rename:{hdr[i]}", hdr[:i] + [hdr[i] + "X"] + hdr[i + 1:], rows))
-        j = rng.randrange(n_er, n)
+        j = rng.choice(own)
         h2, r2 = list(hdr), [list(r) + [""] * (n - len(r)) for r in rows]
         h2[i], h2[j] = h2[j], h2[i]
         out.append((f"swaptitles:{hdr[i]}:{hdr[j]}", h2, rows))       # cells now under the wrong titles
@@ -660,13 +714,13 @@ def write_table(path, hdr, rows):
             f.write(";".join(r) + "\n")
 
 
-def stream_results(ck: Check, ops, expect):
+def stream_results(ck: Check, ops, expect, real):
     from moptipy.evaluation.end_results import CsvWriter as ErW
     from moptipyapps.binpacking2d import packing_result as pr
     d = ck.work / "csv"
     d.mkdir(exist_ok=True)
     n_mut = 0
-    for idx, (stream, rs) in enumerate(gen_result_sets(ck)):
+    for idx, (stream, rs) in enumerate(gen_result_sets(ck, real)):
         ck.count("csvR_" + stream)
         ck.count(f"csvR_records", len(rs))
         srt = sorted(rs)
@@ -737,14 +791,243 @@ def stream_results(ck: Check, ops, expect):
                 expect.append(("csvRp", what.split(":")[0], l2, iout2, None))
 
 
+# ------------------------------------------------------------------ CSV: PackingStatistics
+def deep_equal(a, b) -> bool:
+    """field-by-field equality of (nested) dataclass objects, numbers compared with their types"""
+    import dataclasses
+    a, b = norm_stat(a), norm_stat(b)
+    if dataclasses.is_dataclass(a) and dataclasses.is_dataclass(b):
+        return type(a) is type(b) and all(deep_equal(getattr(a, f.name), getattr(b, f.name)) for f in dataclasses.fields(a))
+    return type(a) is type(b) and a == b
+
+
+def table_text(hdr, rows) -> str:
+    return f"{'|'.join(cc(h) for h in hdr)}!{'/'.join('|'.join(cc(c) for c in r) for r in rows)}"
+
+
+def canon_gen2(tok: str, n_packing: int) -> str:
+    """second-generation table with the columns of the embedded (opaque) record sorted by title: the driver's stand-in
+    codec for moptipy's end statistics does not know moptipy's column order; `n_packing` = number of trailing columns
+    that belong to the packing classes"""
+    if "!" not in tok:
+        return tok
+    h, r = tok.split("!", 1)
+    hdr = h.split("|")
+    rows = [x.split("|") for x in r.split("/")] if r else []
+    n_es = len(hdr) - n_packing
+    if n_es <= 0:
+        return tok
+    order = sorted(range(n_es), key=lambda i: hdr[i]) + list(range(n_es, len(hdr)))
+    rows = [x + ["c"] * (len(hdr) - len(x)) for x in rows]
+    out_rows = []
+    for x in rows:
+        y = [x[i] for i in order]
+        while y and y[-1] == "c":
+            y.pop()
+        out_rows.append("|".join(y))
+    return "|".join(hdr[i] for i in order) + "!" + "/".join(out_rows)
+
+
+def norm_stat(x):
+    """moptipy keeps a budget that is the same in all runs as a plain number but reads it back as a single-valued
+    SampleStatistics: compare such values as numbers (representation inside the opaque library record)"""
+    if hasattr(x, "minimum") and hasattr(x, "maximum") and x.minimum == x.maximum:
+        return x.minimum
+    return x
+
+
+def stat_sets(ck: Check, real):
+    """PackingStatistics sets via the real from_packing_results; goal_f homogeneous per table (the heterogeneous case
+    fails inside moptipy's own codec: known finding, produced separately)"""
+    from moptipyapps.binpacking2d import packing_statistics as ps
+    rng, quick = ck.rng, ck.quick
+
+    def stats_of(results):
+        st = []
+        ps.from_packing_results(results, st.append)
+        return st
+    if real:
+        yield "real", stats_of(real), False
+        for _ in range(2 if quick else 20):
+            sub = rng.sample(real, rng.randint(2, len(real)))
+            yield "real_subset", stats_of(sub), False
+    for it in range(30 if quick else 800):
+        objs = sorted(rng.sample(OBJ_NAMES, rng.choice([1, 2, 2, 3, 7])))
+        bbk = rng.choice([BB_KEYS, BB_KEYS, BB_KEYS[:1], BB_KEYS[1:]])
+        goal_mode = rng.choice(["none", "all", "all"]) if it % 10 else "mixed"
+        groups = []
+        for g in range(rng.choice([1, 2, 3, 4])):
+            algo = rng.choice(["rls", "fea1p1_swap2", "a_b"]) + str(g)
+            inst = rng.choice(["a01", "beng01"])
+            obj = rng.choice(objs)
+            enc = rng.choice([None, "ibf1", "ibf2"])
+            mf = rng.choice([None, 100, 10**6])
+            mt = rng.choice([None, 5000])
+            goal = (1 if goal_mode == "all" else None) if goal_mode != "mixed" else (1 if g % 2 == 0 else None)
+            bins_lo = rng.randint(1, 5)
+            bounds = {}
+            for o in objs:
+                bounds[o + ".lowerBound"] = bins_lo if o == "binCount" else rng.choice([0, 1, 100])
+                bounds[o + ".upperBound"] = 10**7
+            bb = {b: rng.randint(1, bins_lo) for b in bbk}
+            same = rng.random() < 0.3
+            base = {o: (bins_lo + 2 if o == "binCount" else rng.randint(200, 10**6)) for o in objs}
+            for seed in range(rng.choice([1, 2, 3, 5])):
+                vals = {o: (v if same else v + (rng.randint(0, 3) if o == "binCount" else rng.randint(0, 1000)))
+                        for o, v in base.items()}
+                groups.append((algo, inst, obj, enc, seed, vals, bounds, bb, goal, mf, mt))
+        from moptipy.evaluation.end_results import EndResult
+        from moptipyapps.binpacking2d.packing_result import PackingResult
+        res = []
+        for algo, inst, obj, enc, seed, vals, bounds, bb, goal, mf, mt in groups:
+            tf = rng.randint(5, 100)
+            er = EndResult(algo, inst, obj, enc, 1000 + seed, vals[obj], rng.randint(1, tf), rng.randint(0, 50), tf,
+                           rng.randint(50, 100), goal, mf if mf is None else max(mf, tf), mt)
+            res.append(PackingResult(er, 24, 20, 100, 50, vals, bounds, bb))
+        try:
+            st = stats_of(res)
+        except ERRS:
+            ck.count("csvS_from_packing_results_rejected")
+            continue
+        yield ("random_goal_mixed" if goal_mode == "mixed" and len({g[8] for g in groups}) > 1 else "random"), st, \
+            goal_mode == "mixed" and len({g[8] for g in groups}) > 1
+
+
+def stat_rec_line(r, esw, titles, objs, ssw):
+    """one SREC of the driver protocol from a real PackingStatistics and the real (set-up) moptipy writers"""
+    cells = list(esw.get_row(r.end_statistics))
+    sss = []
+    for o in objs:
+        st = r.objectives[o]
+        tt = list(ssw[o].get_column_titles())
+        cc_ = list(ssw[o].get_row(st))
+        use = ["" if t == o else t[len(o) + 1:] for t in tt]
+        sss.append(f"{cc(o)}:{cc(str(st.n))}:" + "&".join(f"{cc(u)}={cc(c)}" for u, c in zip(use, cc_)))
+    return (f"{'|'.join(cc(c) for c in cells)} / {cc(r.end_statistics.objective)} / "
+            f"{r.n_items} {r.n_different_items} {r.bin_width} {r.bin_height} / {'|'.join(sss)} / "
+            f"{fmap(r.objective_bounds)} / {fmap(r.bin_bounds)}")
+
+
+def stream_statistics(ck: Check, ops, expect, real):
+    from moptipy.evaluation.end_statistics import CsvWriter as EsW
+    from pycommons.math.sample_statistics import CsvWriter as SsW
+    from moptipyapps.binpacking2d import packing_statistics as ps
+    d = ck.work / "csv"
+    d.mkdir(exist_ok=True)
+    n_mut = 0
+    for idx, (stream, st, goal_mixed) in enumerate(stat_sets(ck, real)):
+        ck.count("csvS_" + stream)
+        ck.count("csvS_records", len(st))
+        srt = sorted(st)
+        path, path2 = str(d / f"s{idx % 50}.csv"), str(d / "s_gen2.csv")
+        ctx = {"stream": stream, "n": len(st), "algorithms": sorted({s_.end_statistics.algorithm for s_ in st}),
+               "goal_f": [s_.end_statistics.goal_f for s_ in srt]}
+        try:
+            ps.to_csv(st, path)
+        except ERRS as e:
+            ck.spec(False, "csvS_write", f"to_csv raised {type(e).__name__}: {e}", ctx)
+            continue
+        hdr, rows = parse_csv_file(path)
+        try:
+            back = list(ps.from_csv(path))
+        except ERRS as e:
+            if goal_mixed and "None" in str(e):
+                # the installed moptipy writes str(None) for successN when goal_f is present in some records only
+                ck.spec(False, "stats_goal_mixed_moptipy",
+                        f"PackingStatistics table with goal_f present in some records only cannot be read back: {e}", ctx)
+                ck.count("csvS_known_moptipy_defect")
+            else:
+                ck.spec(False, "csvS_read", f"from_csv(to_csv(rs)) raised {type(e).__name__}: {e}", ctx)
+            continue
+        ck.spec(len(back) == len(srt), "csvS_count", f"{len(srt)} records written, {len(back)} read", ctx)
+        for a, b in zip(srt, back):
+            c2 = {"algorithm": a.end_statistics.algorithm, "instance": a.end_statistics.instance}
+            ck.spec(deep_equal(a.end_statistics, b.end_statistics), "csvS_end_statistics",
+                    "embedded end statistics differ after round trip", c2)
+            ck.spec((a.n_items, a.n_different_items, a.bin_width, a.bin_height)
+                    == (b.n_items, b.n_different_items, b.bin_width, b.bin_height), "csvS_fixed",
+                    "nItems/nDifferentItems/binWidth/binHeight differ after round trip", c2)
+            ck.spec(sorted(a.objectives) == sorted(b.objectives)
+                    and all(deep_equal(a.objectives[o], b.objectives[o]) for o in a.objectives), "csvS_objectives",
+                    "objective statistics differ after round trip", c2)
+            ck.spec(dict(a.objective_bounds) == dict(b.objective_bounds), "csvS_objective_bounds",
+                    "objective bounds differ after round trip", c2)
+            ck.spec(dict(a.bin_bounds) == dict(b.bin_bounds), "csv_binbound_keys",
+                    f"bin bounds differ after round trip: {dict(a.bin_bounds)} -> {dict(b.bin_bounds)}", c2)
+        ps.to_csv(back, path2)
+        hdr2, rows2 = parse_csv_file(path2)
+        ck.spec((hdr2, rows2) == (hdr, rows), "csvS_second_generation", "writing the read-back records gives a different table",
+                {"stream": stream, "header": hdr, "header2": hdr2})
+        # --- B: the model's table, and the table the model writes from what its reader returned
+        if goal_mixed:
+            continue   # the embedded codec itself is broken there
+        esw = EsW().setup(r.end_statistics for r in srt)
+        titles = list(esw.get_column_titles())
+        objs = sorted({o for r in srt for o in r.objectives})
+        ssw = {o: SsW(scope=o, n_not_needed=True).setup(r.objectives[o] for r in srt) for o in objs}
+        line = f"csvS {'|'.join(cc(t) for t in titles)} ; " + " ; ".join(stat_rec_line(r, esw, titles, objs, ssw) for r in srt)
+        ops.append(line)
+        ck.case(f"csvS {stream} {table_text(hdr, rows)[:3000]}")
+        npk = len(hdr) - len(titles)
+        iout = (f"hdr={'|'.join(cc(h) for h in hdr)} rows={'/'.join('|'.join(cc(c) for c in r) for r in rows)} "
+                f"gen2={canon_gen2(table_text(hdr2, rows2), npk)}")
+        expect.append(("csvS", stream, line, iout, npk))
+        single = [o for o in objs if o in hdr]
+        ck.count("csvS_objectives_single_valued", len(single))
+        ck.count("csvS_objectives_multi_valued", len(objs) - len(single))
+        opt = [k for k in ("encoding", "goalF", "maxFEs", "maxTimeMillis") if k in hdr]
+        ck.count("csvS_optcols_" + ("+".join(opt) if opt else "none"))
+        if n_mut < (10 if ck.quick else 120) and len(st) <= 4:
+            n_mut += 1
+            own = [i for i, h in enumerate(hdr) if i >= len(titles) and (
+                h in ("binHeight", "binWidth", "nItems", "nDifferentItems") or h.startswith("bins.")
+                or h.endswith((".lowerBound", ".upperBound")))]
+            for what, h2, r2 in mutate_table(ck, hdr, rows, len(titles), own):
+                if what == "norows":
+                    continue    # to_csv of an empty list is not a table
+                p2 = str(d / "smut.csv")
+                write_table(p2, h2, r2)
+                try:
+                    b2 = list(ps.from_csv(p2))
+                    ps.to_csv(b2, path2)
+                    h3, r3 = parse_csv_file(path2)
+                    npk2 = len(h3) - len([t for t in h3 if t in titles])
+                    iout2 = "gen2=" + canon_gen2(table_text(h3, r3), npk2)
+                    ck.count("csvSp_accepted")
+                except ERRS:
+                    iout2 = "gen2=ERR"
+                    ck.count("csvSp_rejected")
+                l2 = f"csvSp {'|'.join(cc(t) for t in h2)}" + "".join(" ; " + "|".join(cc(c) for c in r) for r in r2)
+                ops.append(l2)
+                ck.case(f"csvSp {what} {l2[:200]}", nontrivial=False)
+                expect.append(("csvSp", what.split(":")[0], l2, iout2, set(titles)))
+
+
 # ------------------------------------------------------------------ driver
 def streams(ck: Check) -> None:
+    import traceback
     ops, expect = [], []
-    stream_instances(ck, ops, expect)
-    stream_plans(ck, ops, expect)
-    stream_orderings(ck, ops, expect)
-    stream_packings(ck, ops, expect)
-    stream_results(ck, ops, expect)
+    real = []
+
+    def guarded(what, fn):
+        """a stream that dies with an exception of the real code (e.g. `from_resource`, which itself parses compact
+        strings, or the experiment/log pipeline) is reported with the call that failed — never silently skipped"""
+        try:
+            fn()
+        except (ERRS + (Timeout, RuntimeError, AttributeError, AssertionError)) as e:
+            tb = traceback.extract_tb(e.__traceback__)
+            where = next((f"{f.filename.split('/')[-1]}:{f.lineno} {f.name}" for f in reversed(tb)
+                          if "moptipyapps" in f.filename), "harness")
+            ck.spec(False, "impl_exception", f"the real code raised {type(e).__name__}: {e} in {where} while running "
+                    f"the {what} stream", {"stream": what, "where": where})
+
+    guarded("instances", lambda: stream_instances(ck, ops, expect))
+    guarded("plans", lambda: stream_plans(ck, ops, expect))
+    guarded("orderings", lambda: stream_orderings(ck, ops, expect))
+    guarded("packings", lambda: stream_packings(ck, ops, expect))
+    guarded("experiment", lambda: real.extend(real_experiment_results(ck)))
+    guarded("results", lambda: stream_results(ck, ops, expect, real))
+    guarded("statistics", lambda: stream_statistics(ck, ops, expect, real))
     outs = ck.model(ops)
     for (kind, stream, line, iout, ctx), mout in zip(expect, outs):
         short = line if len(line) < 300 else line[:300] + "…"
@@ -752,6 +1035,15 @@ def streams(ck: Check) -> None:
             d = kv(mout)
             if "read" in d:
                 mout = " ".join(f"{k}={canon_model_read(v) if k == 'read' else v}" for k, v in d.items())
+        if kind in ("csvS", "csvSp"):
+            d = kv(mout)
+            if "gen2" in d and "!" in d["gen2"]:
+                if kind == "csvS":
+                    npk = ctx
+                else:
+                    h3 = [uncc(t) for t in d["gen2"].split("!")[0].split("|")]
+                    npk = len(h3) - len([t for t in h3 if t in ctx])
+                mout = " ".join(f"{k}={canon_gen2(v, npk) if k == 'gen2' else v}" for k, v in d.items())
         ck.compare(f"{kind}:{stream}", short, mout, iout)
         if kind in ("parse", "planparse", "ordparse") and mout != iout:
             # malformed stream: the property says nothing, but a reader that accepts what the other rejects is reported
